@@ -541,6 +541,162 @@ def check_extflags(res, facts):
             rule.bad(key, "coefficients are coded as %s (M = plain, F = with flags); only the last coefficient may carry (or accept) flag bits: expected %s. A flag-tolerant read of an inner coefficient accepts encodings with stray bits, so the encoding of an element is not unique" % (seq, want), f.loc)
 
 
+def check_serbuf(res, facts, tier):
+    """SerBuffer, the byte image of an Fp element: for N = 1..3 limbs and EVERY admitted byte count
+    (8(N-1)+1 ..= 8N+1), with all limb / input bits symbolic [GF(2)-affine abstract interpretation]:
+      W  copy_from_u64_slice + write_up_to emit exactly num_bytes bytes, byte k = integer bits 8k..8k+7 (little endian),
+         byte 8N = the extra flag byte;
+      R  read_exact_up_to + to_bigint consume exactly num_bytes bytes and rebuild the integer whose byte k is input byte k
+         (bytes not read are zero), the extra byte lands in `last`;
+      I  buffer[k] (Index / IndexMut, where the flags are OR-ed in and removed) is byte k of that image."""
+    from arklib import bvinterp as BI
+    rule = res.rule("R-SERBUF", "SerBuffer: written bytes = little-endian bytes of the limbs (+ flag byte), read bytes rebuild the same integer, buffer[k] is byte k; all limb contents, all admitted lengths [abstract interpretation]", 3)
+    SB = "ark_ff::const_helpers::SerBuffer"
+    fns = {f.name: f for f in facts.fns(unit="ws", crate="ark_ff") if f.kind != "Closure" and f.self_head == SB}
+    need = ("copy_from_u64_slice", "write_up_to", "read_exact_up_to", "to_bigint", "get", "get_mut")
+    if any(n not in fns for n in need):
+        rule.bad("ark_ff|SerBuffer", "anchor missing: %s" % [n for n in need if n not in fns])
+        return
+
+    def closure_of(t):
+        cty = [a for a in (t["f"].get("targs") or []) if a.startswith("{closure@")]
+        cands = [c for c in facts.fns(unit="ws", crate="ark_ff") if c.kind == "Closure" and cty and cty[0] in (c.local_ty(1) or "")]
+        return cands[0] if len(cands) == 1 else None
+
+    def byte_of(v):
+        if isinstance(v, bool):
+            v = int(v)
+        return BI.BV([0] * 64, v) if isinstance(v, int) else v
+
+    ns = (1, 2, 3, 4) if tier == "thorough" else (1, 2, 3)
+    verdict = {"W": None, "R": None, "I": None}
+    cases = {"W": 0, "R": 0, "I": 0}
+    for N in ns:
+        def fresh():
+            return BI.Struct({0: BI.Slice([BI.Slice([0] * 8) for _ in range(N)]), 1: 0})
+        # ---- I: get / get_mut
+        for nm in ("get", "get_mut"):
+            for k in range(8 * N + 1):
+                buf = BI.Struct({0: BI.Slice([BI.Slice([BI.Tok(("b", 8 * i + j)) for j in range(8)]) for i in range(N)]), 1: BI.Tok(("b", 8 * N))})
+                holder = {"b": buf}
+                try:
+                    vals, _ = BI.run(fns[nm], {1: BI.Ref(holder, "b"), 2: k}, params={"N": N}, max_steps=2000)
+                except BI.Stop as e:
+                    verdict["I"] = verdict["I"] or ("undecided", "%s(%d), N = %d: %s" % (nm, k, N, e))
+                    break
+                r = vals.get(0)
+                v = r.get() if isinstance(r, BI.Ref) else r
+                cases["I"] += 1
+                if not (isinstance(v, BI.Tok) and v.label == ("b", k)):
+                    verdict["I"] = verdict["I"] or ("violation", "N = %d: %s(%d) refers to %s, not to byte %d of the image" % (N, nm, k, getattr(v, "label", v), k))
+                    break
+        for nb in range(8 * (N - 1) + 1, 8 * N + 2):
+            # ---- W
+            holder = {"b": fresh()}
+            limbs = BI.Slice([BI.BV.word(i) for i in range(N)])
+            written = []
+
+            def wmodel(nm, argv, t):
+                if nm == "write_all" and len(argv) == 2:
+                    src = argv[1].get() if isinstance(argv[1], BI.Ref) else argv[1]
+                    if not isinstance(src, BI.Slice):
+                        raise BI.Stop("write_all of a non-slice")
+                    written.extend(list(src.items))
+                    return BI.Opt()                 # io::Result Ok(()) / ControlFlow::Continue: discriminant 0
+                if nm == "branch":
+                    return BI.Opt()
+                return NotImplemented
+            try:
+                BI.run(fns["copy_from_u64_slice"], {1: BI.Ref(holder, "b"), 2: BI.Ref(limbs)}, params={"N": N}, closure_of=closure_of, max_steps=5000)
+                holder["b"].fields[1] = BI.BV([1 << (64 * N + j) for j in range(8)] + [0] * 56)     # the extra byte: symbolic
+                BI.run(fns["write_up_to"], {1: BI.Ref(holder, "b"), 2: BI.Tok("writer"), 3: nb}, params={"N": N}, call_model=wmodel, closure_of=closure_of, max_steps=8000)
+            except BI.Stop as e:
+                verdict["W"] = verdict["W"] or ("undecided", "N = %d, %d bytes: %s" % (N, nb, e))
+            else:
+                cases["W"] += 1
+                if len(written) != nb:
+                    verdict["W"] = verdict["W"] or ("violation", "N = %d: asked for %d bytes, %d are written" % (N, nb, len(written)))
+                else:
+                    for k, b_ in enumerate(written):
+                        b_ = byte_of(b_)
+                        for j in range(64):
+                            want = (1 << (8 * k + j)) if j < 8 else 0
+                            if k == 8 * N:
+                                want = (1 << (64 * N + j)) if j < 8 else 0
+                            row, c = b_.bit(j)
+                            if row != want or c:
+                                verdict["W"] = verdict["W"] or ("violation", "N = %d, %d bytes: bit %d of written byte %d is %s, expected integer bit %d" % (N, nb, j, k, _srcbits(row, c), 8 * k + j))
+                                break
+                        if verdict["W"]:
+                            break
+            # ---- R
+            holder = {"b": fresh()}
+            consumed = [0]
+
+            def rmodel(nm, argv, t):
+                if nm == "read_exact" and len(argv) == 2:
+                    dst = argv[1].get() if isinstance(argv[1], BI.Ref) else argv[1]
+                    if not isinstance(dst, BI.Slice):
+                        raise BI.Stop("read_exact into a non-slice")
+                    for i in range(len(dst.items)):
+                        k = consumed[0]
+                        dst.items[i] = BI.BV([1 << (8 * k + j) for j in range(8)] + [0] * 56)
+                        consumed[0] += 1
+                    return BI.Opt()
+                if nm == "branch":
+                    return BI.Opt()
+                return NotImplemented
+            try:
+                BI.run(fns["read_exact_up_to"], {1: BI.Ref(holder, "b"), 2: BI.Tok("reader"), 3: nb}, params={"N": N}, call_model=rmodel, closure_of=closure_of, max_steps=8000)
+                last = byte_of(holder["b"].fields[1])
+
+                def zmodel(nm, argv, t):
+                    if nm == "from" and len(argv) == 1 and isinstance(argv[0], int):
+                        return BI.Struct({0: BI.Slice([argv[0]] + [0] * (N - 1))})
+                    return NotImplemented
+                vals, _ = BI.run(fns["to_bigint"], {1: holder["b"]}, params={"N": N}, call_model=zmodel, closure_of=closure_of, max_steps=8000)
+            except BI.Stop as e:
+                verdict["R"] = verdict["R"] or ("undecided", "N = %d, %d bytes: %s" % (N, nb, e))
+            else:
+                cases["R"] += 1
+                out = vals.get(0)
+                ls = out.fields[0].items if isinstance(out, BI.Struct) else None
+                if consumed[0] != nb:
+                    verdict["R"] = verdict["R"] or ("violation", "N = %d: asked to read %d bytes, %d are consumed" % (N, nb, consumed[0]))
+                elif ls is None or len(ls) != N:
+                    verdict["R"] = verdict["R"] or ("undecided", "N = %d: to_bigint result is not a BigInt" % N)
+                else:
+                    for i in range(N):
+                        v = byte_of(ls[i]) if not isinstance(ls[i], BI.BV) else ls[i]
+                        for j in range(64):
+                            pos = 64 * i + j
+                            want = (1 << pos) if pos // 8 < min(nb, 8 * N) else 0
+                            row, c = v.bit(j)
+                            if row != want or c:
+                                verdict["R"] = verdict["R"] or ("violation", "N = %d, %d bytes read: integer bit %d is %s, expected %s" % (N, nb, pos, _srcbits(row, c), ("input bit %d" % pos) if want else "0"))
+                                break
+                        if verdict["R"]:
+                            break
+                    if not verdict["R"] and nb == 8 * N + 1:
+                        for j in range(8):
+                            if last.bit(j) != (1 << (64 * N + j), 0):
+                                verdict["R"] = ("violation", "N = %d: the extra byte read is not stored in `last`" % N)
+    for part, label in (("W", "copy_from_u64_slice + write_up_to"), ("R", "read_exact_up_to + to_bigint"), ("I", "Index / IndexMut")):
+        key = "ark_ff|SerBuffer|%s" % label
+        v = verdict[part]
+        if v is None:
+            rule.ok(key, "%d cases (N in %s, every admitted length), all limb / input bits symbolic" % (cases[part], list(ns)), fns["write_up_to"].loc)
+        elif v[0] == "violation":
+            rule.bad(key, v[1], fns["write_up_to"].loc)
+        else:
+            rule.undecided(key, "abstract interpretation stopped (%s)" % v[1], fns["write_up_to"].loc)
+
+
+def _srcbits(row, c):
+    xs = ["input bit %d" % i for i in range(row.bit_length()) if (row >> i) & 1]
+    return (" ^ ".join(xs) if xs else "0") + (" ^ 1" if c else "")
+
+
 def run(ctx, res):
     facts = ctx.facts(["ws"])
     res.analysed = facts.stats()
@@ -549,6 +705,7 @@ def run(ctx, res):
     check_sign(res, facts)
     check_trio_points(res, facts)
     check_extflags(res, facts)
+    check_serbuf(res, facts, ctx.tier)
     return {
         "level": "other",
         "explanation": "Table- and path-enumeration rules over the MIR of the flag types, the Fp codec and the SW/TE point codecs: the flag byte table is enumerated completely (256 values x variants), the sign rule is enumerated over the three orderings of a coordinate and its negation on all three sides (encoder, recovery helper, decoder), size expressions are compared by dataflow, and the sub-encoding sequences of writer / reader / size are compared per compress arm. Byte-for-byte equality of a round trip and the curve-specific bls12_381 encodings are NOT decided here (flag propagation and validation: C18 / C10).",
